@@ -41,13 +41,16 @@ Section StreamSpec.
       (length rest < length buf)%nat /\ exists used, buf = used ++ rest.
 
   (* "a complete frame in the buffer is always either consumed or rejected";
-     [complete] is the protocol's framing rule *)
+     [complete] is the protocol's framing rule: with a complete frame at the head of the
+     buffer a call returns a message, an error, or - if it asks for more bytes - has taken
+     bytes away (the RTR decoder drops complete PDUs of types the client does not use) *)
   Definition complete_frame_decided (complete : list N -> Prop) : Prop :=
-    forall buf, complete buf -> dec buf <> DNeed.
+    forall buf rest, complete buf -> dec buf = DNeed rest -> (length rest < length buf)%nat.
 
-  (* and more bytes are requested only while the frame is incomplete *)
+  (* and when more bytes are requested, what stays in the buffer is a suffix of it that does
+     not start with a complete frame *)
   Definition need_only_if_incomplete (complete : list N -> Prop) : Prop :=
-    forall buf, dec buf = DNeed -> ~ complete buf.
+    forall buf rest, dec buf = DNeed rest -> ~ complete rest /\ exists used, buf = used ++ rest.
 
   (* the driver of Model/Stream.v never observes a spin and never runs out of
      its own iteration bound *)
